@@ -176,6 +176,62 @@ m('bcj-reader-encodes', 'C11', 'FILTER-INVERSE', 'src/filter/bcj.rs', 'Self::new
 
 m('empty-preset-waives-reset', 'C19', 'PRESET-TWIN', 'src/enc/lzma2_writer.rs', 'if let Some(preset_dict) = lzma_options.preset_dict.as_ref().filter(|d| !d.is_empty()) {', 'if let Some(preset_dict) = &lzma_options.preset_dict {', 'LZMA2Writer::new:reset-waived-only-for-nonempty-preset')
 
+# round 6
+m('slot-not-emptied-after-end-marker', 'C05', 'ERR-SLOT', 'src/lzma_reader.rs',
+  """                    self.rc.normalize();
+                    if let Some(e) = self.rc.take_read_error() {
+                        return Err(e);
+                    }
+""", """                    self.rc.normalize();
+""", 'LZMAReader::read_decode:slot-emptied-before-data-is-released')
+m('slot-taken-and-dropped', 'C05', 'ERR-SLOT', 'src/lzma_reader.rs',
+  """            if let Some(e) = self.rc.take_read_error() {
+                return Err(e);
+            }
+
+            match result {""", """            let _ = self.rc.take_read_error();
+
+            match result {""", 'LZMAReader::read_decode:slot-emptied-before-data-is-released')
+m('read-u8-drops-error-again', 'C05', 'ERR-SWALLOW', 'src/range_dec.rs',
+  """            Err(e) => {
+                if error.is_none() {
+                    *error = Some(e);
+                }
+                0
+            }""", """            Err(_) => 0,""", 'read_u8:on-Err-of:read_exact')
+m('lzip-short-magic-is-trailing-data', 'C05', 'MAGIC-PREFIX', 'src/lzip.rs',
+  """        if filled < magic.len() && magic[..filled] == LZIP_MAGIC[..filled] {
+            // The data ends inside what can only be the magic of another member.
+            return Err(error_eof());
+        }
+""", "", 'LZIPHeader::parse_next:NoMagic-only-after-comparing-the-bytes')
+m('xzreader-no-latch', 'C05', 'READ-ERR-LATCH', 'src/xz/reader.rs',
+  """        let result = self.read_blocks(buf);
+        self.failed = result.is_err();
+        result""", """        self.read_blocks(buf)""", '<XZReader as Read>::read:error-is-sticky')
+m('bcj2-exhausted-input-is-eof', 'C05', 'OWED-OUTPUT', 'src/filter/bcj2.rs',
+  """                if self.uncompressed_size != 0 && result_size == 0 {
+                    return Err(error_eof());
+                }
+""", "", '<BCJ2Reader as Read>::read:input-end-with-output-owed-is-not-Ok')
+m('lzipmt-scan-from-raw-end', 'C08', 'TRAILING-SKIP', 'src/lzip/reader_mt.rs',
+  """        let mut current_pos = match Self::find_last_member_end(&mut reader, file_size) {
+            Ok(end) => end,
+            Err(error) => {
+                self.inner = Some(reader);
+                return Err(error);
+            }
+        };
+""", """        let mut current_pos = file_size;
+""", 'LZIPReaderMT::scan_members:trailing-data-skipped-like-the-single-threaded-reader')
+m('ppc-scan-skips-last-slot', 'C11', 'SCAN-COVERAGE', 'src/filter/bcj/ppc.rs', '        while i <= end {', '        while i < end {', 'BCJFilter::ppc_code:last-slot-scanned')
+m('deltawriter-flush-shortcut', 'C05', 'FLUSH-FORWARD', 'src/filter/delta.rs', """    fn flush(&mut self) -> crate::Result<()> {
+        self.inner.flush()""", """    fn flush(&mut self) -> crate::Result<()> {
+        if self.buffer.is_empty() {
+            return Ok(());
+        }
+        self.inner.flush()""", '<DeltaWriter as Write>::flush:sink-flushed-on-every-Ok-path')
+
 M = [x for x in M if x['old'] is not None]
 
 
